@@ -14,7 +14,7 @@ REPLY_TYPES = [('Rdispatch', -2), ('Rerr', -128), ('BAD_Rerr', 127), ('Rping', -
 CHUNK = 4096
 NCHUNKS = (1 << 24) // CHUNK
 
-ASCII = ['a', 'key', 'trace-id', 'com.example.ctx', 'X' * 40, 'k.with.dots', 'UPPER', 'sp ace']
+ASCII = ['a', 'key', 'trace-id', 'com.example.ctx', 'X' * 40, 'k.with.dots', 'UPPER', 'sp ace', '100% %s', '{0}{x}']
 UTF8 = ['héllo', 'ü', '日本語', 'café-€', '\U0001f600', 'aé' * 9]
 
 
@@ -96,7 +96,7 @@ class C13(BaseCheck):
              'scales.thriftmux.sink:ThriftMuxMessageSerializerSink.ReadHeader',
              'scales.thriftmux.sink:SocketTransportSink._BuildHeader')
   REQUIRED_ANCHORS = ANCHORS
-  REQUIRED_CLASSES = ('headers', 'ctx:ascii', 'ctx:utf8', 'ctx:empty', 'ctx:long', 'ctx:none',
+  REQUIRED_CLASSES = ('headers', 'ctx:named-like-the-deadline', 'ctx:ascii', 'ctx:utf8', 'ctx:empty', 'ctx:long', 'ctx:none',
                       'deadline', 'client-id', 'reply:OK', 'reply:ERROR', 'reply:NACK', 'reply:Rerr',
                       'reply:BAD_Rerr', 'tdiscarded', 'wire', 'wire:requests-while-opening', 'wire:simultaneous-discards', 'wire:stalled-across-ping',
                       'wire:short-sends', 'wire:after-unserialisable-call', 'deadline:already-past', 'sibling-service-marshalled-first', 'wire:every-write-stalls')
@@ -178,7 +178,9 @@ class C13(BaseCheck):
 
   def _gen_call(self, rng):
     from vlib.gen.verifsvc import VerifService, ExtService, ttypes
-    m = rng.choice(['echo', 'add', 'swap', 'flag', 'ping', 'blob', 'names', 'extra', 'fail', 'notify'])
+    m = rng.choice(['echo', 'add', 'swap', 'flag', 'ping', 'blob', 'names', 'extra', 'fail', 'notify', 'concat'])
+    if m == 'concat':       # parameters numbered out of order in the IDL
+      return VerifService, m, (gen_text(rng, False), gen_text(rng, False)), {}
     if m == 'notify':       # declared oneway
         return VerifService, m, (gen_text(rng, False),), {}
     if m == 'echo' or m == 'fail':
@@ -274,6 +276,11 @@ class C13(BaseCheck):
           classes.add('deadline:already-past')
         msg.properties[Deadline.KEY] = deadline
         classes.add('deadline')
+        if rng.random() < 0.2:
+          # a caller that forwards its upstream's contexts by name, the deadline's among them: the call's own
+          # deadline is the one the frame carries, once (the entry count is part of the frame)
+          msg.properties['com.twitter.finagle.Deadline'] = rng.choice(['upstream-deadline', '', gen_text(rng)])
+          classes.add('ctx:named-like-the-deadline')
       cap.sink.requests = []
       stack = ClientMessageSinkStack()
       rc = _ReplyCapture()
